@@ -12,6 +12,10 @@ impl Monitor for C12 {
     fn prop(&self) -> &'static str {
         "C12"
     }
+    fn scalable(&self, g: &str) -> bool {
+        let _ = g;
+        true
+    }
     fn gens(&self, tier: Tier) -> Vec<Gen> {
         vec![gen("histories", tier.pick(3_000, 400_000, 2)), gen("mask-limited", tier.pick(240, 12_000, 1))]
     }
